@@ -37,6 +37,12 @@ type Case struct {
 	Entries []Entry `json:"entries"`
 	Paged   int     `json:"paged"`   // entries per page (0 = all on the collection itself)
 	Owner   string  `json:"owner"`   // embedded | remote : how the collection hangs off its owner
+	// Key: the property under which a post publishes its reply collection ("" = replies; comments is the other
+	// spelling servitor reads)
+	Key string `json:"key,omitempty"`
+	// Before: the listing is first read by its own address, as a collection nobody vouches for (remote listings only);
+	// what that leaves behind in the process must not change a verdict
+	Before bool `json:"before,omitempty"`
 }
 
 // kinds and whether the entry legitimately belongs to the listing
@@ -75,6 +81,7 @@ var replyKinds = map[string]bool{
 	"actor-not-post":           false,
 	"reply-to-prefix":          false, // parent id merely starts with this post's id
 	"reply-to-query-variant":   false, // parent id differs from this post's only in the query
+	"reply-to-a-reply-of-this":       false, // answers an answer to this post: belongs under that answer, not here
 	"reply-author-alias-to-foreign":  false, // the author is named by an address on the reply's host that redirects to an actor of another host
 	"reply-author-mirror-of-foreign": false, // … or that serves a document whose id is an actor of another host
 }
@@ -187,6 +194,8 @@ func (w *world) entryValue(c Case, i int, e Entry) any {
 			reply["inReplyTo"] = w.h0("/otherpost")
 		case "reply-to-same-path-other-host":
 			reply["inReplyTo"] = w.h1("/owner")
+		case "reply-to-a-reply-of-this":
+			reply["inReplyTo"] = w.h0("/firstreply")
 		case "reply-to-prefix":
 			reply["inReplyTo"] = w.h0("/owner2")
 		case "reply-to-query-variant":
@@ -267,7 +276,12 @@ func build(c Case, prefix string) *world {
 	case "outbox":
 		w.docs["/owner"] = js(map[string]any{"id": w.h0("/owner"), "type": "Person", "name": "OWNER", "preferredUsername": "owner", "outbox": collValue})
 	case "replies":
-		w.docs["/owner"] = js(map[string]any{"id": w.h0("/owner"), "type": "Note", "name": "OWNERPOST", "content": "the post", "replies": collValue})
+		key := "replies"
+		if c.Key != "" {
+			key = c.Key
+		}
+		w.docs["/owner"] = js(map[string]any{"id": w.h0("/owner"), "type": "Note", "name": "OWNERPOST", "content": "the post", key: collValue})
+		w.docs["/firstreply"] = js(map[string]any{"id": w.h0("/firstreply"), "type": "Note", "name": "FIRSTREPLY", "content": "an answer", "inReplyTo": w.h0("/owner")})
 	}
 	w.docs["/owner?author=2"] = js(map[string]any{"id": w.h0("/owner?author=2"), "type": "Person", "name": "QUERYVARIANT", "preferredUsername": "variant"})
 	w.docs["/owner?p=2"] = js(map[string]any{"id": w.h0("/owner?p=2"), "type": "Note", "name": "QUERYVARIANTPOST", "content": "x"})
@@ -316,6 +330,16 @@ func check(c Case) vrep.Result {
 			legit++
 		} else {
 			impostor++
+		}
+	}
+	if c.Before && c.Owner == "remote" {
+		classes = append(classes, "listing-read-by-its-address-first")
+		if coll, err := pub.NewCollection(sim.Expand(w.h0("/listing"), -1, prefix), nil, pub.NewTangible); err == nil {
+			var cont pub.Container = coll
+			var off uint
+			for n := 0; cont != nil && n < 4; n++ {
+				_, cont, off = cont.Harvest(3, off)
+			}
 		}
 	}
 	owner := pub.New(sim.Expand(w.h0("/owner"), -1, prefix), nil)
@@ -442,6 +466,10 @@ func gen(t *rapid.T) Case {
 		c.Entries = append(c.Entries, Entry{Kind: rapid.SampledFrom(kinds).Draw(t, "kind"), Transport: rapid.SampledFrom([]string{"url", "stub", "embedded", "embedded-noid"}).Draw(t, "transport")})
 	}
 	c.Paged = rapid.SampledFrom([]int{0, 0, 1, 2, 3}).Draw(t, "paged")
+	if c.Listing == "replies" && rapid.IntRange(0, 2).Draw(t, "commentskey") == 1 {
+		c.Key = "comments"
+	}
+	c.Before = rapid.IntRange(0, 2).Draw(t, "before") == 1
 	return c
 }
 
